@@ -7,26 +7,26 @@ terms, so the kernel decides them by evaluation.  When one of these theorems sto
 mirrors has changed: the check then looks for a behavioural difference (replay) and otherwise reports the obligation
 (`no-failing-input-found`), because the model is no longer known to describe the code.
 -/
-import JediVerif.Gen.Mirrors
-import JediVerif.Impl.MirrorsExpected
+import JediVerif.Properties.Mirrors.C01
+import JediVerif.Properties.Mirrors.C02
+import JediVerif.Properties.Mirrors.C06
+import JediVerif.Properties.Mirrors.C07
+import JediVerif.Properties.Mirrors.C08
+import JediVerif.Properties.Mirrors.C09
+import JediVerif.Properties.Mirrors.C10
+import JediVerif.Properties.Mirrors.C11
+import JediVerif.Properties.Mirrors.C12
+import JediVerif.Properties.Mirrors.C13
+import JediVerif.Properties.Mirrors.C14
+import JediVerif.Properties.Mirrors.C15
+import JediVerif.Properties.Mirrors.C16
+import JediVerif.Properties.Mirrors.C17
 
 namespace Jedi.Mirrors
 open Jedi
 
-theorem mirror_C01 : Gen.Mirrors.c01 = Impl.MirrorsExpected.c01 := rfl
-theorem mirror_C02 : Gen.Mirrors.c02 = Impl.MirrorsExpected.c02 := rfl
-theorem mirror_C06 : Gen.Mirrors.c06 = Impl.MirrorsExpected.c06 := rfl
-theorem mirror_C07 : Gen.Mirrors.c07 = Impl.MirrorsExpected.c07 := rfl
-theorem mirror_C08 : Gen.Mirrors.c08 = Impl.MirrorsExpected.c08 := rfl
-theorem mirror_C09 : Gen.Mirrors.c09 = Impl.MirrorsExpected.c09 := rfl
-theorem mirror_C10 : Gen.Mirrors.c10 = Impl.MirrorsExpected.c10 := rfl
-theorem mirror_C11 : Gen.Mirrors.c11 = Impl.MirrorsExpected.c11 := rfl
-theorem mirror_C12 : Gen.Mirrors.c12 = Impl.MirrorsExpected.c12 := rfl
-theorem mirror_C13 : Gen.Mirrors.c13 = Impl.MirrorsExpected.c13 := rfl
-theorem mirror_C14 : Gen.Mirrors.c14 = Impl.MirrorsExpected.c14 := rfl
-theorem mirror_C15 : Gen.Mirrors.c15 = Impl.MirrorsExpected.c15 := rfl
-theorem mirror_C16 : Gen.Mirrors.c16 = Impl.MirrorsExpected.c16 := rfl
-theorem mirror_C17 : Gen.Mirrors.c17 = Impl.MirrorsExpected.c17 := rfl
+/- one module per property (`Properties/Mirrors/Cxx.lean`, theorem `mirror_Cxx`) so that a changed function only breaks the
+obligation of the properties whose models mirror it -/
 
 /-- non-vacuity: the tables are not empty (564 function definitions on the current tree). -/
 example : 5 ≤ Gen.Mirrors.c11.length ∧ 5 ≤ Gen.Mirrors.c08.length ∧ Gen.Mirrors.c16.length = 5 := by decide
